@@ -6,7 +6,6 @@ import (
 	"time"
 
 	dtpb "github.com/google/fhir/go/proto/google/fhir/proto/r4/core/datatypes_go_proto"
-	"github.com/shopspring/decimal"
 	"github.com/verily-src/fhirpath-go/internal/fhir"
 	"github.com/verily-src/fhirpath-go/internal/fhirconv"
 )
@@ -150,70 +149,37 @@ func (d Date) Less(input Any) (Boolean, error) {
 // Add returns the result of d + input. Returns an
 // error if it is not a valid time-valued quantity.
 func (d Date) Add(input Quantity) (Date, error) {
-	var result time.Time
-	value := int(decimal.Decimal(input.value).IntPart())
-	switch input.unit {
-	case "year", "years":
-		result = addYear(d.date, value)
-	case "month", "months":
-		result = addMonth(d.date, value)
-	case "week", "weeks":
-		value = 7 * value
-		result = d.date.AddDate(0, 0, value)
-	case "day", "days":
-		result = d.date.AddDate(0, 0, value)
-	default:
-		return Date{}, fmt.Errorf("%w: can't add to date", ErrMismatchedUnit)
-	}
-
-	// Reformat to truncate date to initial precision. This causes the addition result
-	// to round down to the highest precision value.
-	result, err := time.Parse(string(d.l), result.Format(string(d.l)))
-	if err != nil {
-		return Date{}, err
-	}
-	return Date{result, d.l}, nil
+	return d.shift(input, 1)
 }
 
 // Sub returns the result of d - input. Returns an error if the
 // input does not represent a valid time-valued quantity.
 func (d Date) Sub(input Quantity) (Date, error) {
-	// Handle partial dates by rounding quantity to appropriate precision.
-	// Subtraction is not symmetric with addition, so the solution of truncation
-	// as done in Add, cannot be applied here.
-	if d.l == yearLayout {
-		years, err := input.toYears()
-		if err != nil {
-			return Date{}, err
-		}
-		return Date{d.date.AddDate(-years, 0, 0), d.l}, nil
-	}
-	if d.l == monthLayout {
-		months, err := input.toMonths()
-		if err != nil {
-			return Date{}, err
-		}
-		return Date{d.date.AddDate(0, -months, 0), d.l}, nil
-	}
+	return d.shift(input, -1)
+}
 
-	// subtract appropriate position of date, for non-partial dates.
-	var result time.Time
-	value := -int(decimal.Decimal(input.value).IntPart())
-	switch input.unit {
-	case "year", "years":
-		result = addYear(d.date, value)
-	case "month", "months":
-		result = addMonth(d.date, value)
-	case "week", "weeks":
-		value = 7 * value
-		result = d.date.AddDate(0, 0, value)
-	case "day", "days":
-		result = d.date.AddDate(0, 0, value)
-	default:
-		return Date{}, fmt.Errorf("%w: can't add to date", ErrMismatchedUnit)
+// shift moves the date by the quantity, converted to whole units of the date's precision.
+func (d Date) shift(input Quantity, sign int) (Date, error) {
+	precision := dtDay
+	switch d.l {
+	case yearLayout:
+		precision = dtYear
+	case monthLayout:
+		precision = dtMonth
 	}
-
-	return Date{result, d.l}, nil
+	if precision == dtDay {
+		switch input.unit {
+		case "year", "years", "month", "months", "week", "weeks", "day", "days":
+		default:
+			// a time of day cannot be added to a full date
+			return Date{}, fmt.Errorf("%w: can't add to date", ErrMismatchedUnit)
+		}
+	}
+	s, err := input.shiftFor(precision)
+	if err != nil {
+		return Date{}, fmt.Errorf("%w: can't add to date", err)
+	}
+	return Date{s.apply(d.date, sign), d.l}, nil
 }
 
 // Name returns the type name.
